@@ -15,6 +15,7 @@ import (
 	"os"
 	"strings"
 	"sync"
+	"sync/atomic"
 	"time"
 
 	sio "github.com/karagenc/socket.io-go"
@@ -254,6 +255,78 @@ func runC2S(run *vk.Run, c wcase) {
 	}
 }
 
+// runC2SAcross: the emitters start BEFORE Connect() and keep emitting at full speed through the connect, so that
+// the flush of the offline send buffer (thousands of packets by then) runs while Emit calls of the same goroutines
+// are in flight. Per-emitter order on the wire must hold across that hand-over (seeded C02-H: the flush took the
+// buffer and released the lock before handing the packets on, so a racing Emit overtook everything buffered).
+func runC2SAcross(run *vk.Run, c wcase) {
+	run.Eval(1)
+	raw, err := rawpeer.NewServer("")
+	if err != nil {
+		run.Inconclusive(err.Error())
+		return
+	}
+	defer raw.Close()
+	transports := []string{"websocket"}
+	if c.Transport == "polling" {
+		transports = []string{"polling"}
+		raw.Upgrades = nil
+	}
+	mcfg := rig.ManagerConfig(transports...)
+	mcfg.NoReconnection = true
+	m := sio.NewManager(raw.URL, mcfg)
+	defer m.Close()
+	sock := m.Socket("/", nil)
+	connected := make(chan struct{}, 1)
+	sock.OnConnect(func() {
+		select {
+		case connected <- struct{}{}:
+		default:
+		}
+	})
+	var emitted atomic.Int64
+	half := int64(c.Emitters * c.Burst / 2)
+	goConnect := make(chan struct{})
+	var once sync.Once
+	go func() {
+		<-goConnect
+		sock.Connect()
+	}()
+	emitBurst(func(ev string, args ...any) {
+		sock.Emit(ev, args...)
+		if emitted.Add(1) >= half {
+			once.Do(func() { close(goConnect) })
+		}
+	}, c, run.Seed())
+	once.Do(func() { close(goConnect) })
+	select {
+	case <-connected:
+	case <-time.After(30 * time.Second):
+		run.Inconclusive("c2s-across " + c.id() + ": client did not connect to the raw server")
+		return
+	}
+	sess := raw.WaitSession(1, 10*time.Second)
+	if sess == nil {
+		run.Inconclusive("no raw session")
+		return
+	}
+	sock.Emit("fence")
+	var werr error
+	deadline := time.Now().Add(60 * time.Second)
+	for {
+		_, _, werr = sess.WaitPacket(0, 250*time.Millisecond, isFence)
+		if _, perr := sess.Packets(); werr == nil || perr != nil || time.Now().After(deadline) {
+			break
+		}
+	}
+	ps, perr := sess.Packets()
+	checkWire(run, c, ps, perr, werr == nil)
+	if werr != nil && perr == nil {
+		run.Inconclusive("c2s-across " + c.id() + ": fence not seen: " + werr.Error())
+	}
+	run.Count("across_connect_cases", 1)
+}
+
 // handler-entry order in a sio<->sio world
 // big: every second event carries a ~300 KB string, so that decoding an event takes longer than the
 // dispatch grace of the library — an implementation that lets the next packet go before the
@@ -352,7 +425,7 @@ func runHandlerOrder(run *vk.Run, transports []string, emitters, burst int, big 
 func main() {
 	run := vk.Start("C02", "exploration")
 	run.Rule("wire cases {s2c via raw client, c2s via raw Engine.IO server} x {polling, websocket, after a completed upgrade} x emitters {1,2,4,8,16} x burst, 0..4 attachments per event; " +
-		"distinct = (direction, transport, hash of the emitter-id sequence observed on the wire), i.e. distinct wire interleavings actually seen; plus handler-entry order cases")
+		"c2s across the connect: 1/2/4 emitters start before Connect() and run through it (the offline buffer is flushed while they emit); distinct = (direction, transport, hash of the emitter-id sequence observed on the wire), i.e. distinct wire interleavings actually seen; plus handler-entry order cases")
 	run.Assume("Engine.IO ping/pong/noop packets between MESSAGE frames are legal and ignored",
 		"order across the transport swap itself is not demanded here (C07)")
 	bursts := []int{run.Pick(100, 200)}
@@ -380,6 +453,14 @@ outer:
 						run.Logf("slow wire case %s e=%d: s2c %v c2s %v", tr, e, t1.Sub(t0).Round(time.Millisecond), time.Since(t1).Round(time.Millisecond))
 					}
 				}
+			}
+		}
+		for _, tr := range []string{"websocket", "polling"} {
+			for _, e := range []int{1, 2, 4} {
+				if run.Violations() > 4 {
+					break outer
+				}
+				runC2SAcross(run, wcase{"c2s-across-connect", tr, e, run.Pick(4000, 12000) / e})
 			}
 		}
 		for _, tr := range [][]string{{"polling"}, {"websocket"}, {"polling", "websocket"}} {
